@@ -84,12 +84,14 @@ Module W.
   Definition bca : str := Eval compute in s "Build-Conflicts-Arch".
 End W.
 
-Definition no_para_nl : variant := mk_variant false true true true true true.
-Definition no_doc_lines : variant := mk_variant true false true true true true.
-Definition no_fmt_lines : variant := mk_variant true true false true true true.
-Definition no_hash : variant := mk_variant true true true false true true.
-Definition no_terminate : variant := mk_variant true true true true false true.
-Definition no_typo : variant := mk_variant true true true true true false.
+Definition no_para_nl : variant := mk_variant false true true true true true true true.
+Definition no_doc_lines : variant := mk_variant true false true true true true true true.
+Definition no_fmt_lines : variant := mk_variant true true false true true true true true.
+Definition no_hash : variant := mk_variant true true true false true true true true.
+Definition no_terminate : variant := mk_variant true true true true false true true true.
+Definition no_typo : variant := mk_variant true true true true true false true true.
+Definition no_upl_hash : variant := mk_variant true true true true true true false true.
+Definition no_rel_keep : variant := mk_variant true true true true true true true false.
 
 (* the printed result does not re-read to what the returned object reports *)
 Definition reread_differs (V : variant) (c : wcfg) psort (d : doc) : Prop :=
@@ -377,11 +379,11 @@ Qed.
 
 (* the control formatter, for a relations formatter that returns *)
 Definition ctl_fmt (r : str -> str) (name value : str) : str :=
-  if str_eqb name Lit.k_Uploaders then fmt_uploaders value
+  if str_eqb name Lit.k_Uploaders then fmt_uploaders_h value
   else if existsb (str_eqb name) (Lit.relation_fields true) then r value
   else value.
-Lemma format_field_pure r k v : format_field fixed (fun x => Ok (r x)) k v = Ok (ctl_fmt r k v).
-Proof. unfold format_field, ctl_fmt. cbn [v_typo fixed]. destruct (str_eqb k Lit.k_Uploaders); [reflexivity|]. destruct (existsb (str_eqb k) (Lit.relation_fields true)); reflexivity. Qed.
+Lemma format_field_pure r k v : format_field fixed (rel_arm fixed (fun x => Ok (r x))) k v = Ok (ctl_fmt r k v).
+Proof. unfold format_field, ctl_fmt, rel_arm. cbn [v_typo v_upl_hash v_rel_keep fixed]. destruct (str_eqb k Lit.k_Uploaders); [reflexivity|]. destruct (existsb (str_eqb k) (Lit.relation_fields true)); reflexivity. Qed.
 
 (* Control::wrap_and_sort is the deb822-level reformatting in control order, no field sort, with the control formatter *)
 Theorem control_ws_is_std c r t :
@@ -398,10 +400,34 @@ Module WC.
   Import Coq.Strings.String.
   Local Open Scope string_scope.
   Definition d_bad_relation : doc := [BPara (mk_field (Lit.s2l "Depends") (Lit.s2l " ") (Lit.s2l "a (= 1") [] true) []].
+  (* "Uploaders: A <a@x>, #B <b@x>\n" *)
+  Definition d_upl_hash : doc := [BPara (mk_field (Lit.s2l "Uploaders") (Lit.s2l " ") (Lit.s2l "A <a@x>, #B <b@x>") [] true) []].
+  Definition upl_hash_reported : list (list (str * str)) := [[(Lit.s2l "Uploaders", (Lit.s2l "A <a@x>," ++ [10%N] ++ Lit.s2l "#B <b@x>")%list)]].
+  Definition upl_hash_reread : list (list (str * str)) := [[(Lit.s2l "Uploaders", Lit.s2l "A <a@x>,")]].
+  Definition upl_hash_kept : list (list (str * str)) := [[(Lit.s2l "Uploaders", Lit.s2l "A <a@x>, #B <b@x>")]].
 End WC.
+(* C07-21: without it the '#' piece becomes a comment line: the returned object reports two lines,
+   the printed text re-reads to one; with it the piece stays on the line before it *)
+Definition ctl_reports (V : variant) (d : doc) : res (list (list (str * str)) * res (list (list (str * str)))) :=
+  match control_ws V (fun v => Ok v) (Spaces 2) false None (tree_of d) with
+  | Ok t1 => Ok (doc_items t1, rmap doc_items (from_str (text t1)))
+  | Err x => Err x | Panic x => Panic x | OutOfFuel => OutOfFuel
+  end.
+Lemma uploaders_hash_piece :
+  ctl_reports no_upl_hash WC.d_upl_hash = Ok (WC.upl_hash_reported, Ok WC.upl_hash_reread) /\
+  ctl_reports fixed WC.d_upl_hash = Ok (WC.upl_hash_kept, Ok WC.upl_hash_kept).
+Proof. split; vm_compute; reflexivity. Qed.
+(* ... without C07-22; with it the field is left as it is *)
 Lemma control_unparsable_relation_panics :
-  control_ws fixed (fun _ => Panic 20) (Spaces 1) false None (tree_of WC.d_bad_relation) = Panic 20.
+  control_ws no_rel_keep (fun _ => Panic 20) (Spaces 1) false None (tree_of WC.d_bad_relation) = Panic 20.
 Proof. vm_compute. reflexivity. Qed.
+Lemma control_unparsable_relation_kept_ex :
+  control_ws fixed (fun _ => Panic 20) (Spaces 1) false None (tree_of WC.d_bad_relation) = Ok (tree_of WC.d_bad_relation).
+Proof. vm_compute. reflexivity. Qed.
+Lemma rel_arm_kept rel v : rel v = Panic 20 -> rel_arm fixed rel v = Ok v.
+Proof. intros H. unfold rel_arm. cbn [v_rel_keep fixed]. rewrite H. reflexivity. Qed.
+Lemma rel_arm_ok rel v o : rel v = Ok o -> rel_arm fixed rel v = Ok o.
+Proof. intros H. unfold rel_arm. cbn [v_rel_keep fixed]. rewrite H. reflexivity. Qed.
 
 (* ---------------------------------------------------------------- formatters that absorb the re-layout *)
 (* the formatter gives the same output when its own output comes back with a blank or a line break
@@ -620,6 +646,57 @@ Proof.
   destruct r as [|p2 r2].
   - cbn [join]. destruct p as [|ch p']; [exact I|]. apply Hnl. exact Hp.
   - rewrite join_cons2. destruct p as [|ch p']; [reflexivity|]. cbn [app]. apply Hnl. exact Hp.
+Qed.
+
+(* ---- the Uploaders arm with C07-21 (a piece that starts with '#' stays on the line before it) ---- *)
+Definition lch (q : str) : N := if starts_with_hash q then 32%N else 10%N.
+Lemma upl_sep_lch q : upl_sep q = [44%N; lch q].
+Proof. unfold upl_sep, lch. destruct (starts_with_hash q); reflexivity. Qed.
+Lemma join_upl_cons2 p p2 r : join_upl (p :: p2 :: r) = p ++ upl_sep p2 ++ join_upl (p2 :: r).
+Proof. reflexivity. Qed.
+
+Lemma split_join_upl ps : forall lead, ps <> [] -> no_char 44 lead = true -> Forall (fun p => no_char 44 p = true) ps ->
+  split_on 44 (lead ++ join_upl ps) =
+  match ps with [] => [] | p :: rest => (lead ++ p) :: map (fun q => lch q :: q) rest end.
+Proof.
+  induction ps as [|p r IH]; intros lead Hne Hl Hps; [congruence|]. inversion Hps as [|? ? Hp Hr]; subst.
+  destruct r as [|p2 r2].
+  - cbn [join_upl map]. apply split_on_single. unfold no_char in *. rewrite forallb_app, Hl, Hp. reflexivity.
+  - rewrite join_upl_cons2, upl_sep_lch. cbn [app]. rewrite app_assoc, split_on_cons.
+    + f_equal. change (lch p2 :: join_upl (p2 :: r2)) with ([lch p2] ++ join_upl (p2 :: r2)).
+      rewrite (IH [lch p2] ltac:(discriminate)); [reflexivity| |exact Hr]. unfold lch. destruct (starts_with_hash p2); reflexivity.
+    + unfold no_char in *. rewrite forallb_app, Hl, Hp. reflexivity.
+Qed.
+
+Theorem uploaders_h_absorbing : absorbing (fun _ v => fmt_uploaders_h v).
+Proof.
+  intros _ v lead Hlead. destruct (lead_all lead Hlead) as [Hw Hc].
+  unfold fmt_uploaders_h at 1.
+  set (ps := map trim (split_on 44 v)).
+  assert (Hne : ps <> []) by (unfold ps; pose proof (split_on_nonempty 44 v); destruct (split_on 44 v); [congruence|discriminate]).
+  assert (Hnc : Forall (fun p => no_char 44 p = true) ps).
+  { unfold ps. apply Forall_forall. intros p Hp. apply in_map_iff in Hp. destruct Hp as (q & <- & Hq).
+    apply trim_no_char. apply (split_on_pieces 44 v q Hq). }
+  assert (Htr : Forall trimmed ps).
+  { unfold ps. apply Forall_forall. intros p Hp. apply in_map_iff in Hp. destruct Hp as (q & <- & _). apply trim_trimmed. }
+  change (fmt_uploaders_h v) with (join_upl ps). rewrite (split_join_upl ps lead Hne Hc Hnc).
+  destruct ps as [|p rest]; [congruence|]. inversion Htr as [|? ? Hp Hrest]; subst. cbn [map].
+  rewrite (trim_absorbs lead p Hw Hp). f_equal. f_equal. rewrite map_map.
+  rewrite <- (map_id rest) at 2. apply map_ext_in. intros q Hq. rewrite Forall_forall in Hrest.
+  apply (trim_absorbs [lch q] q); [unfold lch; destruct (starts_with_hash q); reflexivity|exact (Hrest q Hq)].
+Qed.
+
+Theorem uploaders_h_no_lead : no_lead (fun _ v => fmt_uploaders_h v).
+Proof.
+  intros _ v. unfold fmt_uploaders_h.
+  assert (Htr : Forall trimmed (map trim (split_on 44 v))).
+  { apply Forall_forall. intros p Hp. apply in_map_iff in Hp. destruct Hp as (q & <- & _). apply trim_trimmed. }
+  assert (Hnl : forall ch, is_whitespace ch = false -> lead_char ch = false).
+  { intros ch Hc. destruct (lead_char ch) eqn:E; [|reflexivity]. destruct (lead_char_ws ch E) as [Hw _]. congruence. }
+  destruct (map trim (split_on 44 v)) as [|p r]; [exact I|]. inversion Htr as [|? ? [Hp _] _]; subst.
+  destruct r as [|p2 r2].
+  - cbn [join_upl]. destruct p as [|ch p']; [exact I|]. apply Hnl. exact Hp.
+  - rewrite join_upl_cons2, upl_sep_lch. destruct p as [|ch p']; [reflexivity|]. cbn [app]. apply Hnl. exact Hp.
 Qed.
 
 (* a second application changes nothing for an absorbing formatter, comparators on names *)
